@@ -67,6 +67,9 @@ pub struct FWorld {
 pub enum FOp {
     Append(usize),
     Reopen,
+    /// a record through the previous appender object, which is still alive (append mode only):
+    /// the normal reload sequence, or two appenders configured on one path
+    AppendOld(usize),
 }
 
 #[derive(Clone, Debug)]
@@ -74,6 +77,7 @@ pub struct FState {
     /// (size, label); label usize::MAX = pre-existing content
     pub content: Vec<(usize, usize)>,
     pub nops: usize,
+    pub has_old: bool,
 }
 
 impl FWorld {
@@ -101,7 +105,7 @@ impl FWorld {
 impl HistSpec for FWorld {
     type Op = FOp;
     type State = FState;
-    type Key = Vec<usize>;
+    type Key = (Vec<usize>, bool);
     fn init(&self) -> FState {
         let mut content = vec![];
         if self.append {
@@ -109,28 +113,33 @@ impl HistSpec for FWorld {
                 content.push((p.len(), usize::MAX));
             }
         }
-        FState { content, nops: 0 }
+        FState { content, nops: 0, has_old: false }
     }
-    fn ops(&self, _s: &FState) -> Vec<FOp> {
+    fn ops(&self, s: &FState) -> Vec<FOp> {
         let mut v: Vec<FOp> = self.sizes.iter().map(|s| FOp::Append(*s)).collect();
         v.push(FOp::Reopen);
+        if self.append && s.has_old {
+            v.push(FOp::AppendOld(1));
+            v.push(FOp::AppendOld(1025));
+        }
         v
     }
     fn step(&self, s: &FState, op: &FOp) -> FState {
         let mut st = s.clone();
         match op {
-            FOp::Append(size) => st.content.push((*size, st.nops)),
+            FOp::Append(size) | FOp::AppendOld(size) => st.content.push((*size, st.nops)),
             FOp::Reopen => {
                 if !self.append {
                     st.content.clear();
                 }
+                st.has_old = true;
             }
         }
         st.nops += 1;
         st
     }
-    fn key(&self, s: &FState) -> Vec<usize> {
-        s.content.iter().map(|c| c.0).collect()
+    fn key(&self, s: &FState) -> (Vec<usize>, bool) {
+        (s.content.iter().map(|c| c.0).collect(), s.has_old)
     }
     fn conform(&self, path: &[FOp]) -> Result<(), (String, String)> {
         let sb = Sandbox::new();
@@ -163,12 +172,23 @@ impl HistSpec for FWorld {
             Ok(())
         };
         check(&st, "after open")?;
+        let mut old: Option<FileAppender> = None;
         for op in path {
             let label = st.nops;
             match op {
                 FOp::Append(size) => {
                     let text = payload(&format!("r{}", label), *size);
                     let r = catch_panic(|| app.append(&Record::builder().level(Level::Info).args(format_args!("{}", text)).build()));
+                    match r {
+                        Err(p) => return Err((format!("panic-append:{}", panic_site(&p)), p)),
+                        Ok(Err(e)) => return Err(("append-error".into(), e.to_string())),
+                        Ok(Ok(())) => {}
+                    }
+                }
+                FOp::AppendOld(size) => {
+                    let text = payload(&format!("r{}", label), *size);
+                    let o = old.as_ref().expect("old appender");
+                    let r = catch_panic(|| o.append(&Record::builder().level(Level::Info).args(format_args!("{}", text)).build()));
                     match r {
                         Err(p) => return Err((format!("panic-append:{}", panic_site(&p)), p)),
                         Ok(Err(e)) => return Err(("append-error".into(), e.to_string())),
@@ -182,7 +202,7 @@ impl HistSpec for FWorld {
                         Ok(Err(e)) => return Err(("reopen-failed".into(), e)),
                         Err(p) => return Err((format!("panic-reopen:{}", panic_site(&p)), p)),
                     };
-                    app = newapp;
+                    old = Some(std::mem::replace(&mut app, newapp));
                 }
             }
             st = self.step(&st, op);
@@ -332,7 +352,7 @@ pub fn run(ctx: &Ctx) -> Report {
         complete &= stats.complete;
         notes.push(format!("{}: states={} transitions={}", w.describe(), stats.states, stats.transitions));
         for v in viols {
-            rep.violation(v.signature, format!("[{}] after {:?}: {}", w.describe(), v.path, v.detail), json!({"kind": "history", "world": {"append": w.append, "pre": w.pre, "nested": w.nested, "chunks": w.chunks}, "path": v.path.iter().map(|o| match o { FOp::Append(n) => json!({"append": n}), FOp::Reopen => json!("reopen") }).collect::<Vec<_>>()}));
+            rep.violation(v.signature, format!("[{}] after {:?}: {}", w.describe(), v.path, v.detail), json!({"kind": "history", "world": {"append": w.append, "pre": w.pre, "nested": w.nested, "chunks": w.chunks}, "path": v.path.iter().map(|o| match o { FOp::Append(n) => json!({"append": n}), FOp::AppendOld(n) => json!({"append_old": n}), FOp::Reopen => json!("reopen") }).collect::<Vec<_>>()}));
         }
     }
     rep.set("max_depth", depth as u64);
@@ -376,6 +396,6 @@ pub fn replay(case: &Value) -> Result<(), String> {
         Some(_) => Some("old\n"),
     };
     let world = FWorld { append: w["append"].as_bool().unwrap_or(true), pre, nested: w["nested"].as_bool().unwrap_or(false), chunks: w["chunks"].as_u64().unwrap_or(1) as usize, sizes: vec![] };
-    let path: Vec<FOp> = case["path"].as_array().ok_or("bad path")?.iter().map(|o| match o.get("append") { Some(n) => FOp::Append(n.as_u64().unwrap_or(0) as usize), None => FOp::Reopen }).collect();
+    let path: Vec<FOp> = case["path"].as_array().ok_or("bad path")?.iter().map(|o| match (o.get("append"), o.get("append_old")) { (Some(n), _) => FOp::Append(n.as_u64().unwrap_or(0) as usize), (_, Some(n)) => FOp::AppendOld(n.as_u64().unwrap_or(0) as usize), _ => FOp::Reopen }).collect();
     world.conform(&path).map_err(|(s, d)| format!("{}: {}", s, d))
 }
